@@ -130,6 +130,7 @@ func (vm *VM) resetPath(prefix []Decision) {
 	vm.stubLog = nil
 	vm.stdout, vm.stderr, vm.stdin, vm.vfs = nil, nil, nil, nil
 	vm.onceSyms = nil
+	vm.hazardSeen = false
 	vm.frozenOn = false
 	vm.frozen, vm.frozenMaps = nil, nil
 }
